@@ -66,14 +66,41 @@ func (p *printer) ident(id Ident) {
 	}
 }
 
+// DefaultSpelling is the spelling of a literal whose Raw is not given: a pure
+// function of the value that varies the quote character and adds superfluous
+// escapes, so that checks that only choose values still meet every spelling.
+func DefaultSpelling(v string) string {
+	h := uint32(2166136261)
+	for i := 0; i < len(v); i++ {
+		h = (h ^ uint32(v[i])) * 16777619
+	}
+	q := byte('"')
+	if h&1 == 1 {
+		q = '\''
+	}
+	if (h>>1)%3 != 0 {
+		return QuoteString(v, q)
+	}
+	return SpellWith(v, q, func(i int) bool { return (h>>3+uint32(i)*2654435761)%4 == 0 })
+}
+
 // QuoteString spells a string literal with the given quote character, using
 // the escapes the lexer understands (\\, \q, \n, \t). A raw tab is kept raw.
 func QuoteString(v string, q byte) string {
+	return SpellWith(v, q, nil)
+}
+
+// SpellWith is QuoteString with a superfluous backslash before the bytes
+// extra selects: the lexer reads `\c` as c for every c but n, t and a newline.
+func SpellWith(v string, q byte, extra func(i int) bool) string {
 	var sb strings.Builder
 	sb.WriteByte(q)
 	for i := 0; i < len(v); i++ {
 		c := v[i]
 		switch {
+		case extra != nil && c != '\\' && c != q && c != '\n' && c != '\t' && c != 'n' && c != 't' && c < 0x80 && extra(i):
+			sb.WriteByte('\\')
+			sb.WriteByte(c)
 		case c == '\\':
 			sb.WriteString(`\\`)
 		case c == q:
@@ -110,7 +137,7 @@ func (p *printer) expr(x Expr) {
 	case *Str:
 		raw := x.Raw
 		if raw == "" {
-			raw = QuoteString(x.Value, '"')
+			raw = DefaultSpelling(x.Value)
 		}
 		p.emit(reftok.String, raw, x.Value)
 	case *Unary:
